@@ -7,8 +7,10 @@ import (
 	"fmt"
 	"io"
 	"math/rand/v2"
+	"runtime"
 	"strings"
 	"sync"
+	"time"
 
 	"github.com/creachadair/mds/shell"
 	"verif/harness/fw"
@@ -28,10 +30,10 @@ func init() {
 				Flavours: []string{"plain", "race", "cover"},
 				Blocks:   16,
 				Procs:    16,
-				Rule: "case = one input byte string. Exhaustive: every string of length <= 7 (<= 9 thorough) over 7 bytes: one representative per tokenizer class (blank, newline, backslash, single quote, double quote) and two 'other' bytes; plus every single byte 0..255 in five contexts (classification of all byte values), inputs of 4090..65537 bytes whose tokens and quoted spans cross buffer boundaries, and random inputs up to 200 bytes over a wider alphabet (tab, CR, VT, FF, NBSP, $, `, #, non-ASCII). " +
-					"Per input: Split's fields and completeness flag vs the reference; Scanner over a one-byte-at-a-time reader and over fixed and random fragmentations, including readers that return the last bytes together with io.EOF and readers that sometimes return (0, nil) (Next/Text, Complete after the last token, Next stays false and Err stays io.EOF afterwards); Each with early stop; Scanner.Split; Rest called after the k-th token for every k must yield exactly input[offset_k:] (also when Rest is asked for twice, a few bytes read through the first reader and the remainder through the second) and Next must then stay false; every rune U+0080..U+FFFF (and a stride of the other planes) at the start of the input and in every quoting context, plus byte-order marks, '#!', CR LF and escape sequences; a reader that fails with a non-EOF error must surface through Err. Complete inputs without other metacharacters and without unquoted newlines are also split by dash and 'bash +B' (length <= 6 exhaustive). Reset reuse and the pooled Split run concurrently under -race. " +
+				Rule: "case = one input byte string. Exhaustive: every string of length <= 7 (<= 9 thorough) over 7 bytes: one representative per tokenizer class (blank, newline, backslash, single quote, double quote) and two 'other' bytes; plus a position sweep (one byte of every value at every offset of otherwise plain text of every length 1..40 and around 64/128; pairs of special bytes at every two offsets), every single byte 0..255 in five contexts (classification of all byte values), inputs of 4090..65537 bytes whose tokens and quoted spans cross buffer boundaries, and random inputs up to 200 bytes over a wider alphabet (tab, CR, VT, FF, NBSP, $, `, #, non-ASCII). " +
+					"Per input: Split's fields and completeness flag vs the reference; Scanner over a one-byte-at-a-time reader and over fixed and random fragmentations, including readers that return the last bytes together with io.EOF and readers that sometimes return (0, nil) (Next/Text, Complete after the last token, Next stays false and Err stays io.EOF afterwards); Each with early stop; Scanner.Split; Rest called after the k-th token for every k must yield exactly input[offset_k:] (also when Rest is asked for twice, a few bytes read through the first reader and the remainder through the second) and Next must then stay false; every rune U+0080..U+FFFF (and a stride of the other planes) at the start of the input and in every quoting context, plus byte-order marks, '#!', CR LF and escape sequences; a reader that fails with a non-EOF error must surface through Err; remainders from Rest kept unread while their scanners are dropped, garbage collections are forced and new scanners are created and used, then read and compared. Complete inputs without other metacharacters and without unquoted newlines are also split by dash and 'bash +B' (length <= 6 exhaustive). Reset reuse and the pooled Split run concurrently under -race. " +
 					"distinct = the input (enumerated); non-trivial = it contains a quote or backslash",
-				Required:     []string{"inputs", "state_class_pairs_covered_of_42", "scanner_fragmentations", "rest_calls", "shell_inputs_dash", "shell_inputs_bash", "incomplete_inputs", "all_byte_values", "concurrent_splits", "long_inputs", "rest_after_reset", "rest_asked_twice", "rune_sweep_inputs"},
+				Required:     []string{"inputs", "state_class_pairs_covered_of_42", "scanner_fragmentations", "rest_calls", "shell_inputs_dash", "shell_inputs_bash", "incomplete_inputs", "all_byte_values", "concurrent_splits", "long_inputs", "rest_after_reset", "rest_asked_twice", "rune_sweep_inputs", "position_sweep_inputs", "rest_readers_kept_across_gc"},
 				Exhaustive:   true,
 				Assumptions:  []string{"reference tokenizer written from XCU 2.2 with the package's documented deviation: inside double quotes a backslash escapes only the double quote, backslash and newline; $ and ` are ordinary bytes", "dash and bash (+B, LC_ALL=C) as installed"},
 				CoverPkgs:    []string{"github.com/creachadair/mds/shell"},
@@ -558,6 +560,56 @@ func runC16(c *fw.Ctx) {
 		c.Evals(n)
 		c.SeenEnum(n)
 	}
+	// position sweep: one byte of every value at every offset of otherwise plain
+	// text of every length up to 40 (and around 64, 128), and pairs of the
+	// tokenizer's special bytes at every two offsets up to length 22
+	if !light && c.Begin(idx+595000+c.Block) {
+		var n int64
+		plain := "abcdefghijklmnopqrstuvwxyzABCDEFGHIJKLMNOPQRSTUVWXYZ"
+		word := func(L int) []byte {
+			w := make([]byte, L)
+			for i := range w {
+				w[i] = plain[i%len(plain)]
+			}
+			return w
+		}
+		lens := []int{63, 64, 65, 127, 128, 129}
+		for L := 1; L <= 40; L++ {
+			lens = append(lens, L)
+		}
+		for b := c.Block; b < 256; b += c.NBlocks {
+			for _, L := range lens {
+				for p := 0; p < L; p++ {
+					w := word(L)
+					w[p] = byte(b)
+					m.check(string(w), nil, (b+L+p)%23 == 0)
+					n++
+				}
+			}
+			if c.Stopped() {
+				return
+			}
+		}
+		specials := " \n\\'\"\t"
+		for si := c.Block % len(specials); si < len(specials); si += c.NBlocks {
+			for sj := 0; sj < len(specials); sj++ {
+				for L := 2; L <= 22; L++ {
+					for p := 0; p < L; p++ {
+						for q := p + 1; q < L; q++ {
+							w := word(L)
+							w[p], w[q] = specials[si], specials[sj]
+							m.check(string(w), nil, false)
+							n++
+						}
+					}
+				}
+			}
+		}
+		c.Add("position_sweep_inputs", n)
+		c.Add("inputs", n)
+		c.Evals(n)
+		c.SeenEnum(n)
+	}
 	// long inputs: tokens and quoted spans that cross buffer boundaries (4096, 8192, 65536)
 	if c.Block < 8 && c.Begin(idx+600000+c.Block) {
 		lens := []int{4090, 4094, 4095, 4096, 4097, 4100, 5000, 8191, 8192, 8193, 20000, 65537}
@@ -612,6 +664,104 @@ func runC16(c *fw.Ctx) {
 	c.Max("max:state_class_pairs_covered_of_42", int64(n42))
 	if n42 == 42 {
 		c.Add("state_class_pairs_covered_of_42", 1)
+	}
+
+	// results that outlive the scanner that produced them: remainders obtained
+	// from Rest are kept unread, their scanners dropped, garbage collections
+	// forced (finalizers get time to run), new scanners created and used — and
+	// only then are the old remainders read and compared
+	for k := 0; k < c.Pick(3, 20); k++ {
+		if light || !c.Begin(idx+5000+k) {
+			continue
+		}
+		r := c.Rng()
+		const N = 24
+		type kept struct {
+			in   string
+			off  int
+			rest io.Reader
+		}
+		keep := make([]kept, 0, N)
+		mkInput := func(tag string) string {
+			var sb strings.Builder
+			sb.WriteString(tag + " ")
+			for j := 3 + r.IntN(30); j >= 0; j-- {
+				sb.WriteString(wide[r.IntN(len(wide))])
+			}
+			return sb.String() + " end" + tag
+		}
+		for i := 0; i < N; i++ {
+			in := mkInput(fmt.Sprintf("old%d", i))
+			want, _ := refSplit(in, nil)
+			sc := shell.NewScanner(strings.NewReader(in))
+			nt := r.IntN(len(want) + 1)
+			off := 0
+			for j := 0; j < nt && sc.Next(); j++ {
+				off = want[j].End
+			}
+			keep = append(keep, kept{in: in, off: off, rest: sc.Rest()})
+		}
+		for g := 0; g <= k%3; g++ { // one, two or three collections (pools survive one)
+			runtime.GC()
+			time.Sleep(3 * time.Millisecond) // lets finalizers run; not a verdict
+		}
+		bad := false
+		type live struct {
+			sc   *shell.Scanner
+			in   string
+			want []refTok
+			wc   bool
+			got  []string
+		}
+		var lives []*live
+		for i := 0; i < 2*N && !bad; i++ {
+			in := mkInput(fmt.Sprintf("new%d", i))
+			want, wc := refSplit(in, nil)
+			lv := &live{sc: shell.NewScanner(strings.NewReader(in)), in: in, want: want, wc: wc}
+			if i%2 == 0 {
+				// half of the new scanners stay alive, one token consumed, while
+				// the old remainders are read
+				if lv.sc.Next() {
+					lv.got = append(lv.got, lv.sc.Text())
+				}
+				lives = append(lives, lv)
+				continue
+			}
+			for lv.sc.Next() {
+				lv.got = append(lv.got, lv.sc.Text())
+			}
+			if !equalStrings(lv.got, refTexts(want)) || lv.sc.Complete() != wc {
+				c.Fail(map[string]any{"input": fw.Q(in), "phase": "new scanners created after older scanners were dropped and collected"}, "Scanner yields %q (complete=%v), reference %q (%v)", lv.got, lv.sc.Complete(), refTexts(want), wc)
+				bad = true
+			}
+		}
+		finishLives := func() {
+			for _, lv := range lives {
+				if bad {
+					return
+				}
+				for lv.sc.Next() {
+					lv.got = append(lv.got, lv.sc.Text())
+				}
+				if !equalStrings(lv.got, refTexts(lv.want)) || lv.sc.Complete() != lv.wc {
+					c.Fail(map[string]any{"input": fw.Q(lv.in), "phase": "a scanner that was alive while remainders of older, collected scanners were read"}, "Scanner yields %q (complete=%v), reference %q (%v)", lv.got, lv.sc.Complete(), refTexts(lv.want), lv.wc)
+					bad = true
+				}
+			}
+		}
+		for _, kp := range keep {
+			if bad {
+				break
+			}
+			rest, err := io.ReadAll(kp.rest)
+			if err != nil || string(rest) != kp.in[kp.off:] {
+				c.Fail(map[string]any{"input": fw.Q(kp.in), "consumed_bytes": kp.off, "phase": "remainder from Rest read after its scanner was dropped, three garbage collections and 48 new scanners"}, "Rest() reader yields %q (err %v), want the unconsumed input %q", rest, err, kp.in[kp.off:])
+				bad = true
+			}
+		}
+		finishLives()
+		c.Add("rest_readers_kept_across_gc", N)
+		c.Step()
 	}
 
 	// concurrent: pooled Split and Scanner.Reset reuse from 8 goroutines
